@@ -718,6 +718,17 @@ func (x *Exec) evalQuant(e *CE, env *Env) TV {
 	}
 	var pats [][]*Term
 	for _, p := range e.Pats {
+		if len(p) == 1 {
+			// one pattern expression whose value has several leaves (a string or slice element: reference,
+			// offset, length): each leaf is a trigger of its own. As one multi-pattern it would fire only
+			// where all leaves of the same element occur, which depends on what else is in the query.
+			if ts := x.flattenAny(x.eval(p[0], n)); len(ts) > 1 {
+				for _, t := range ts {
+					pats = append(pats, []*Term{t})
+				}
+				continue
+			}
+		}
 		var ts []*Term
 		for _, pe := range p {
 			ts = append(ts, x.flattenAny(x.eval(pe, n))...)
